@@ -11,7 +11,7 @@ from ..qnum import Q, installed
 from ..sllib import TIME_LATTICE, Fixture, random_space_intervals, result_str
 from ..slchecks import RealOps, corr_bilform, corr_mpcol, describe, random_real_mesh, with_generated
 
-PROP_MODS = ['Stbem.Props.C04', 'Stbem.Props.PanelsTie']
+PROP_MODS = ['Stbem.Props.C04', 'Stbem.Props.PanelsTie', 'Stbem.Props.SLRestTie']
 RULE = ('correspondence (exact, Q numbers with rational stand-in special functions): real bilform on both paths, '
         'evaluate, evaluate_exact and potential against the Lean model for all ordered pairs of time intervals of a '
         'lattice (equal, nested, touching, overlapping, separated, both orders) x space configurations: results must '
@@ -27,6 +27,9 @@ TRUSTED = [
     'translate/formulas.py (validated on every run by exact execution of the real functions with stand-ins)',
     'hand-written model lean/Stbem/Model/SingleLayer.lean tied by exact correspondence (harness/sllib.py, qnum.py) and, for its '
     'control flow, by Props/PanelsTie.lean to Gen/Panels.lean which translate/panels.py regenerates from the source on every run',
+    'evaluate_exact, potential, the vector methods, MP_SL_matrix_col and ALL of bilform_matrix (defaults, threshold, cache key, '
+    'load / save, serial loop / pool) regenerated on every run (translate/slrest.py -> Gen/SLRest.lean) and proved equal to the '
+    'hand models for all inputs (Props/SLRestTie.lean); every `sl evalx` / `sl pot` request is answered by the generated twin too',
     'sign (Props/C04Sign.lean): proved in exact arithmetic for the generated time kernels over R and for the quadrature sums '
     'of the model (bilform quadrature path, evaluate, potential); positivity in binary64 (cancellation in the four-term '
     'formula) and the sign of the closed-form path (pw_exact, evaluate_exact: erf) are not modelled: search only',
@@ -63,9 +66,25 @@ def translate_panels(res):
     res.count(('translated', 'single_layer.py control flow'), True, n=stats.get('branches', 0) + stats.get('returns', 0))
 
 
+def translate_slrest(res):
+    """Regenerates lean/Stbem/Gen/SLRest.lean (evaluate_exact, potential, evaluate_vector, potential_vector, rhs_vector, the
+    worker and ALL of bilform_matrix, ErrorEstimator.residual, the assembly slice of example.py) from the tree under test."""
+    import os, sys
+    from ..common import LEAN, REPO, VERIF, write_if_changed
+    sys.path.insert(0, os.path.join(VERIF, 'translate'))
+    import slrest
+    stats = slrest.generate(REPO, os.path.join(LEAN, 'Stbem', 'Gen'), write_if_changed)
+    res.notes['slrest_assembly_slice'] = stats.pop('slice', None)
+    for k in ('branches', 'returns', 'skip_rules', 'cache_blocks', 'pool_paths', 'matrix_loop_nests', 'accumulations', 'rhs_terms',
+              'vector_methods', 'falls_off_end'):
+        res.bump('slrest_' + k, stats.get(k, 0))
+    res.count(('translated', 'rest of single_layer.py / residual / example slice'), True, n=sum(v for v in stats.values() if isinstance(v, int)))
+
+
 def translate(res):
     translate_formulas(res)
     translate_panels(res)
+    translate_slrest(res)
 
 
 def check_rule_hypotheses(res):
